@@ -290,8 +290,9 @@ Definition gate_session (leader_matters : bool) (st : state) (q : request) (h si
   match session_check st (q_hdr q) sid with
   | inl id => Handled h (Some id)
   | inr RNotYet =>
+      (* "not yet seen" is never a 404: clients give a session up on any 404 (D22, c0e28c0) *)
       if leader_matters
-      then (if st_leader st then Refused RNotYet 404 else Proxied)
+      then (if st_leader st then Refused RNotYet 500 else Proxied)
       else Refused RNotYet 500
   | inr e => Refused e 404
   end.
